@@ -149,10 +149,10 @@ func (gaugeScenario) Build(cfg string) ([]func(), func(*vsched.Sched) []string) 
 		for i, o := range outs {
 			var ce circuit.Error
 			isConc := o.err != nil && errors.As(o.err, &ce) && ce.ConcurrencyLimitReached()
-			if !o.ran && !o.panicked {
+			if !o.ran {
 				// refused before running: must report the concurrency limit (possibly the fallback's) or be the fallback's result
 				runRejected++
-				if !o.fbRan && !isConc {
+				if !o.panicked && !o.fbRan && !isConc {
 					problems = append(problems, fmt.Sprintf("caller %d: refused call did not return a ConcurrencyLimitReached error", i))
 				}
 			}
